@@ -100,6 +100,18 @@ class Replay:
         self.built = True
         self.log(f"replay driver built in {time.time() - t0:.1f}s")
 
+    def build_cargo_libcnb(self):
+        """the real `cargo-libcnb` binary from /repo's working tree (C15's replay); path exported to the driver"""
+        env = _env()
+        tdir = os.path.join(WORK, "target-cargo-libcnb")
+        env["CARGO_TARGET_DIR"] = tdir
+        r = subprocess.run(["cargo", "build", "--offline", "-p", "libcnb-cargo", "--manifest-path", os.path.join(REPO, "Cargo.toml")], env=env, capture_output=True, text=True)
+        if r.returncode != 0:
+            raise Inconclusive("cargo-libcnb does not build: " + r.stderr[-800:])
+        os.environ["VERIF_CARGO_LIBCNB"] = os.path.join(tdir, "debug", "cargo-libcnb")
+        cargo = subprocess.run(["sh", "-c", "command -v cargo"], capture_output=True, text=True).stdout.strip()
+        os.environ["VERIF_CARGO"] = cargo or "cargo"
+
     def run_faulty(self, request, fault, timeout=60):
         """one request in its own process with the LD_PRELOAD fault injector: fault = 'op:path-suffix:n'"""
         self.build()
